@@ -423,6 +423,14 @@ func (c17) Run(e *simkit.Env, cc any) {
 						default:
 							err = n.ApplicationStopWithTimeout("main", time.Second)
 						}
+						if err == nil && a.Kind != "stopforce" {
+							for _, m := range mine {
+								if _, perr := n.ProcessInfo(m.pid); perr == nil {
+									e.Fail("C17/stop-returned-early", "round %d: %s returned nil while member %d was still registered and running", ri, a.Kind, m.idx)
+									return
+								}
+							}
+						}
 						mu.Lock()
 						results = append(results, stopRes{a.Kind, err, e.Step(), inv, e.Now() - t0})
 						anyStop = true
